@@ -204,6 +204,7 @@ Tell(m, t) ==
 Corrupt(bytes, c) ==
     IF c[1] = "cut" THEN SubSeq(bytes, 1, IF c[2] < Len(bytes) THEN c[2] ELSE Len(bytes))
     ELSE IF c[1] = "flip" THEN [i \in 1..Len(bytes) |-> IF i = c[2] + 1 THEN ByteXor(bytes[i], c[3]) ELSE bytes[i]]
+    ELSE IF c[1] = "status32" THEN SubSeq(bytes, 1, 8) \o LE(c[2] % 65536, 2) \o LE(c[2] \div 65536, 2) \o SubSeq(bytes, 13, Len(bytes))
     ELSE IF c[1] = "encap" THEN SubSeq(bytes, 1, 2) \o <<0, 0>> \o SubSeq(bytes, 5, 8) \o LE(c[2], 4) \o SubSeq(bytes, 13, 24)
     ELSE bytes
 \* offset (in bytes) below which a reply cannot contain its CIP status words
@@ -213,7 +214,7 @@ TxStep(m, ev) ==
     IF r.fail # "" \/ ~Has(ev.choice, "corrupt") \/ r.m.pend.kind # "reply" THEN r
     ELSE LET c == ev.choice.corrupt  clean == r.m.pend.bytes  bad == Corrupt(clean, c) IN
          Good([r.m EXCEPT !.pend = [kind |-> "reply", bytes |-> bad, tell |-> [k |-> "none"]],
-                          !.last = [k |-> "corrupt", how |-> c[1], short |-> Len(bad) < StatusEnd(clean), encap |-> c[1] = "encap" /\ c[2] # 0]])
+                          !.last = [k |-> "corrupt", how |-> c[1], short |-> Len(bad) < StatusEnd(clean), encap |-> c[1] \in {"encap", "status32"} /\ c[2] # 0]])
 
 (* ------------------------------------------------------------------------------------------------------------ *)
 NamesStatusT(texts, err, st) ==
